@@ -196,10 +196,51 @@ def Spec.identifyPeaks (s : Spec) (flat : List Rat) (baseline cutoff : Rat) :
       | none => .error "IndexError"
       | some fr => .ok (rs, fr)
 
+/-- `ps._exclude_range(ps.identify_peaks(model_fun, …))`: the ranges `identify_peaks` reports handed to the exclusion
+    (what they are for) -/
+def Spec.excludePeaks (s : Spec) (flat : List Rat) (baseline cutoff : Rat) : Except String Spec :=
+  match s.identifyPeaks flat baseline cutoff with
+  | .error e => .error e
+  | .ok (_, fr) => .ok (s.excludeRange fr)
+
 /-- `calculate_power_spectrum` after the raw spectrum has been computed:
     `in_range(*fit_range)._exclude_range(excluded).downsampled_by(k)`. -/
 def Spec.pipeline (s : Spec) (lo hi : Rat) (ranges : List (Rat × Rat)) (k : Nat) : Spec :=
   ((s.inRange lo hi).excludeRange ranges).downsampledBy k
+
+/-! ## chains of derived spectra (derive → derive → query) -/
+
+/-- one derivation step: `in_range(lo, hi)`, `_exclude_range(ranges)`, `downsampled_by(k)` -/
+inductive Step where
+  | inRange (lo hi : Rat)
+  | exclude (ranges : List (Rat × Rat))
+  | block (k : Nat)
+deriving Repr, DecidableEq
+
+def Spec.step (s : Spec) : Step → Spec
+  | .inRange lo hi => s.inRange lo hi
+  | .exclude rs => s.excludeRange rs
+  | .block k => s.downsampledBy k
+
+/-- the object at the end of a chain of method calls, each applied to what the previous one returned -/
+def Spec.run (s : Spec) (steps : List Step) : Spec := steps.foldl Spec.step s
+
+/-! ## the constructor's bookkeeping -/
+
+/-- `(frequency.min(), frequency.max())` (the initial `_fit_range`); `none` = `ValueError` of an empty reduction -/
+def fitInit {α : Type} [LT α] [DecidableLT α] : List α → Option (α × α)
+  | [] => none
+  | x :: xs => some (xs.foldl (fun m y => if y < m then y else m) x, xs.foldl (fun m y => if m < y then y else m) x)
+
+/-- `(total_sampled_used, num_points_per_block)` of a spectrum of `n` samples in windows of `npw` points:
+    `len(squared_fft_chunks) = len(data) // npw` windows, `npw * that` samples used -/
+def psdMeta (n npw : Nat) : Nat × Nat := (npw * (n / npw), n / npw)
+
+/-- the spectrum object as `__init__` leaves it (arrays given): metadata from `psdMeta`, `_fit_range` from `fitInit`,
+    nothing excluded -/
+def Spec.initial (f p : List Rat) (fs : Rat) (n npw : Nat) : Spec :=
+  { freq := f, power := p, nppb := (psdMeta n npw).2, sampleRate := fs, totalSampledUsed := (psdMeta n npw).1,
+    fitLo := ((fitInit f).getD (0, 0)).1, fitHi := ((fitInit f).getD (0, 0)).2, excluded := [] }
 
 /-! ## DFT and the one-sided power spectral density (`RealLike`) -/
 
@@ -308,6 +349,14 @@ def showRatPairs (l : List (Rat × Rat)) : String :=
 def showNatPairs (l : List (Nat × Nat)) : String :=
   showList (fun (p : Nat × Nat) => toString p.1 ++ ":" ++ toString p.2) l
 
+/-- one step token: `i:lo:hi`, `e:[lo:hi,…]`, `b:k` -/
+def step? (s : String) : Option Step :=
+  match s.splitOn ":" with
+  | ["i", a, b] => do let a ← rat? a; let b ← rat? b; some (.inRange a b)
+  | ["b", k] => (nat? k).map .block
+  | "e" :: rest => (ratPairList? (":".intercalate rest)).map .exclude
+  | _ => none
+
 def mkSpec (f p : List Rat) (nppb : Nat) : Spec :=
   { freq := f, power := p, nppb := nppb, sampleRate := 1, totalSampledUsed := 1,
     fitLo := 0, fitHi := 0, excluded := [] }
@@ -322,7 +371,10 @@ def showFP (s : Spec) : String := showRatList s.freq ++ " " ++ showRatList s.pow
   `c10.pipeline lo hi [lo:hi,…] k [f…] [p…]` → `[f…] [p…] nppb`
   `c10.binwidth fs tsu nppb`             → rational
   `c10.withspec n m nppb`                → `nppb` or `ValueError`
-  `c10.peaks nppb baseline cutoff [flat…] [f…]` → `[i:j,…] [lo:hi,…]` or an exception name -/
+  `c10.peaks nppb baseline cutoff [flat…] [f…]` → `[i:j,…] [lo:hi,…]` or an exception name
+  `c10.peaksexclude nppb baseline cutoff [flat…] [f…] [p…]` → `[f…] [p…]` (identify_peaks, then _exclude_range of its answer)
+  `c10.chain nppb fitlo fithi [f…] [p…] step…` (steps `i:lo:hi`, `e:[lo:hi,…]`, `b:k`) → `[f…] [p…] nppb fitlo fithi [excluded…]`
+  `c10.initial fs(rat) fs(double) ws|N n k` → `tsu nppb binwidth binwidth-after-block-k fitlo fithi` -/
 def handle : List String → Option String
   | ["c10.psd", ndim, fs, ws, xs] => do
     let ndim ← nat? ndim
@@ -335,8 +387,8 @@ def handle : List String → Option String
     if ndim ≠ 1 then return "ValueError"
     let npw := numPointsPerWindow ws fs xs.length
     if npw = 0 then return "Error:ZeroDivisionError"
-    let nchunks := xs.length / npw
-    some (toString (npw * nchunks) ++ " " ++ toString nchunks ++ " " ++
+    let md := psdMeta xs.length npw
+    some (toString md.1 ++ " " ++ toString md.2 ++ " " ++
       showFloatList (psdFreq fs npw) ++ " " ++ showFloatList (psdPower xs fs npw))
   | ["c10.inrange", lo, hi, flo, fhi, f, p] => do
     let lo ← rat? lo; let hi ← rat? hi; let flo ← rat? flo; let fhi ← rat? fhi
@@ -382,6 +434,34 @@ def handle : List String → Option String
     match (mkSpec f flat nppb).identifyPeaks flat baseline cutoff with
     | .error e => some e
     | .ok (rs, fr) => some (showNatPairs rs ++ " " ++ showRatPairs fr)
+  | ["c10.peaksexclude", nppb, baseline, cutoff, flat, f, p] => do
+    let nppb ← nat? nppb
+    let baseline ← rat? baseline; let cutoff ← rat? cutoff
+    let flat ← ratList? flat; let f ← ratList? f; let p ← ratList? p
+    if f.length ≠ flat.length ∨ f.length ≠ p.length then none
+    match (mkSpec f p nppb).excludePeaks flat baseline cutoff with
+    | .error e => some e
+    | .ok s => some (showFP s)
+  | "c10.chain" :: nppb :: flo :: fhi :: f :: p :: steps => do
+    let nppb ← nat? nppb; let flo ← rat? flo; let fhi ← rat? fhi
+    let f ← ratList? f; let p ← ratList? p
+    if f.length ≠ p.length then none
+    let steps ← steps.mapM step?
+    if steps.any (fun st => st == Step.block 0) then return "Error:ZeroDivisionError"
+    let s := ({ mkSpec f p nppb with fitLo := flo, fitHi := fhi }).run steps
+    some (showFP s ++ " " ++ toString s.nppb ++ " " ++ showRat s.fitLo ++ " " ++ showRat s.fitHi ++ " " ++
+      showRatPairs s.excluded)
+  | ["c10.initial", fsr, fs, ws, n, k] => do
+    let fsr ← rat? fsr; let fs ← float? fs; let ws ← optFloat? ws; let n ← nat? n; let k ← nat? k
+    match ws with
+    | some w => if w ≤ 0.0 then return "ValueError"
+    | none => pure ()
+    let npw := numPointsPerWindow ws fs n
+    if npw = 0 then return "Error:ZeroDivisionError"
+    let s := Spec.initial [] [] fsr n npw
+    let fit := (fitInit (psdFreq fs npw)).getD (0.0, 0.0)
+    some (toString s.totalSampledUsed ++ " " ++ toString s.nppb ++ " " ++ showRat s.binWidth ++ " " ++
+      showRat (s.downsampledBy k).binWidth ++ " " ++ showFloat fit.1 ++ " " ++ showFloat fit.2)
   | _ => none
 
 end Verif.C10
